@@ -171,8 +171,16 @@ def build(rng):
             emit_type(t, "")
         return lines
 
+    # The import alias is a SEARCHABLE module-level name spelled like a field: now and then it coincides with a
+    # field, abbreviation or parameter of some structure, from inside which the bare name is then visible twice.
+    alias = "lib"
+    if have_lib and rng.random() < 0.4:
+        alias = rng.choice(SNAKE + ["par", "qar", "ax", "by", "cz"])
     lib_lines = render_module(lib, []) if have_lib else None
-    main_lines = render_module(main, [("lib.emb", "lib")] if have_lib else [])
+    main_lines = render_module(main, [("lib.emb", alias)] if have_lib else [])
+
+    def own_names(t):
+        return set(x for f in t.fields for x in f[:2] if x) | set(t.params)
 
     # choose planted references; insert lines bottom-up so indices stay valid
     inserts = []  # (insert_at, text, [(col, intended)])
@@ -232,7 +240,13 @@ def build(rng):
             elif k < 0.62 and have_lib and lib.types:
                 lt = rng.choice(list(lib.types.values()))
                 prefix = "%s%d [+1]  " % (ind, t.next_off)
-                rows.append((prefix + "lib.%s  %s" % (lt.name, nm), [(len(prefix) + 1, (lt.file, lt.path()))]))
+                if alias in own_names(t):
+                    if want_fault and not fault_done:
+                        rows.append((prefix + "%s.%s  %s" % (alias, lt.name, nm), []))
+                        fault[0] = ("Ambiguous name", alias)
+                        fault_done = True
+                    continue
+                rows.append((prefix + "%s.%s  %s" % (alias, lt.name, nm), [(len(prefix) + 1, (lt.file, lt.path()))]))
                 t.next_off += 1
             elif k < 0.78:
                 # enum value reference in an expression
@@ -248,11 +262,11 @@ def build(rng):
                     rows.append((prefix + "%s.%s" % (e.name, v), [(len(prefix) + 1, (e.file, e.path() + [v]))]))
                 elif have_lib:
                     les = [e for e in lib.types.values() if e.kind == "enum"]
-                    if les:
+                    if les and alias not in own_names(t):
                         e = rng.choice(les)
                         v = rng.choice(e.values)
                         prefix = "%slet %s = " % (ind, nm)
-                        rows.append((prefix + "lib.%s.%s" % (e.name, v), [(len(prefix) + 1, (e.file, e.path() + [v]))]))
+                        rows.append((prefix + "%s.%s.%s" % (alias, e.name, v), [(len(prefix) + 1, (e.file, e.path() + [v]))]))
             else:
                 # field / abbreviation / parameter reference
                 names = []
@@ -264,7 +278,16 @@ def build(rng):
                     names.append((p, p))
                 if names:
                     ref, target = rng.choice(names)
+                    if have_lib and alias in own_names(t) and rng.random() < 0.7:
+                        ref = alias  # aim at the coinciding name
                     prefix = "%slet %s = " % (ind, nm)
+                    if have_lib and ref == alias:
+                        # visible as a local name and as the import alias: must be rejected, not resolved by precedence
+                        if want_fault and not fault_done:
+                            rows.append((prefix + "%s + 1" % ref, []))
+                            fault[0] = ("Ambiguous name", ref)
+                            fault_done = True
+                        continue
                     rows.append((prefix + "%s + 1" % ref, [(len(prefix) + 1, (t.file, t.path() + [target]))]))
         # a field of structure type and member references through it
         cands = [x for x in main.types.values() if x.kind == "struct" and x is not t and x.fields and not x.params
